@@ -15,9 +15,11 @@ THEOREMS = ("token_ledger, signal_not_lost, node_in_list_iff, broadcast_releases
 
 
 def stress(c, binary, configs, timeout=600):
+    """configs: (seed, rounds, maxWaiters) for the general scenario, or (seed, "bcast-expiry", rounds, waiters, probes) /
+    (seed, "first-use", rounds) for the directed ones"""
     bad = []
-    for (seed, rounds, maxw) in configs:
-        cmd = [binary, "c13-cond-stress", str(seed), str(rounds), str(maxw)]
+    for cfg in configs:
+        cmd = [binary, "c13-cond-stress"] + [str(x) for x in cfg]
         try:
             p = subprocess.run(cmd, stdout=subprocess.PIPE, stderr=subprocess.PIPE, text=True, timeout=timeout, env=GOENV)
             out = p.stdout.strip() or ("crash: " + p.stderr[-1500:])
@@ -32,7 +34,7 @@ def stress(c, binary, configs, timeout=600):
             if first.startswith("crash") or "DATA RACE" in out:
                 kind = "race" if "DATA RACE" in out else "crash"
             bad.append({"kind_of_violation": kind, "result": first[:600], "detail": out[:3000],
-                        "how": "h c13-cond-stress %d %d %d   (instrumented harness, chaos mode)" % (seed, rounds, maxw)})
+                        "how": "h c13-cond-stress %s   (instrumented harness, chaos mode)" % " ".join(str(x) for x in cfg)})
     return bad
 
 
@@ -58,12 +60,17 @@ def run(c, binary, labels, tier, focus="c13"):
         c.sample("cond lock-step schedule: " + s[:700])
     broken = bool(problems or mism or not stats)
     # 3. stress / monitors (dynamic complement; the search when 1/2 failed)
-    configs = [(c.seed, 150, 4), (c.seed + 1, 60, 8)] if tier == "quick" else \
-              [(c.seed, 3000, 4), (c.seed + 1, 1500, 8), (c.seed + 2, 600, 16), (c.seed + 3, 4000, 2)]
+    configs = [(c.seed, 150, 4), (c.seed + 1, 60, 8),
+               (c.seed, "bcast-expiry", 40, 32, 192), (c.seed, "first-use", 600)] if tier == "quick" else \
+              [(c.seed, 3000, 4), (c.seed + 1, 1500, 8), (c.seed + 2, 600, 16), (c.seed + 3, 4000, 2),
+               (c.seed, "bcast-expiry", 400, 32, 192), (c.seed + 1, "bcast-expiry", 200, 64, 256),
+               (c.seed, "first-use", 6000)]
     sbad = stress(c, binary, configs)
     searched = 0
     if broken and not sbad:
-        more = [(c.seed + 10 + i, 1500, w) for i, w in enumerate((2, 3, 4, 6, 8, 12))]
+        more = [(c.seed + 10 + i, 1500, w) for i, w in enumerate((2, 3, 4, 6, 8, 12))] + \
+               [(c.seed + 30, "bcast-expiry", 600, 32, 192), (c.seed + 31, "bcast-expiry", 300, 8, 64),
+                (c.seed + 30, "first-use", 10000)]
         searched = len(more)
         sbad = stress(c, binary, more)
         if not sbad:
